@@ -394,6 +394,60 @@ pub fn fdouble(full: bool) -> Family {
     }
 }
 
+/// Fpin: the side to move has its king and one pawn, the pawn stands on a line (rank, file
+/// or diagonal) between the king and an enemy slider that moves along that line, so it is
+/// pinned (along a rank or diagonal it may not push even when the square ahead is empty);
+/// the enemy king stands two squares away from the pinned side's king (or on one of three far squares) and one
+/// more enemy piece of any kind stands on any square. Contains the stalemates whose only
+/// pseudo-legal move is the push of a pinned pawn.
+pub fn fpin(full: bool) -> Family {
+    const KSQ: [u8; 10] = [0, 1, 8, 7, 4, 3, 24, 9, 27, 63];
+    let ksq: Vec<u8> = if full { (0..64).collect() } else { KSQ.to_vec() };
+    const DIRS: [(i8, i8); 8] = [(1, 0), (-1, 0), (0, 1), (0, -1), (1, 1), (1, -1), (-1, 1), (-1, -1)];
+    Family {
+        name: if full { "Fpin(full)" } else { "Fpin" },
+        chunks: ksq.len() * 8 * 2,
+        gen: Box::new(move |chunk, out| {
+            let mirror = chunk % 2 == 1;
+            let (df, dr) = DIRS[(chunk / 2) % 8];
+            let wk = ksq[chunk / 16];
+            let (f, r) = (file_of(wk), rank_of(wk));
+            let reach = if full { 7 } else { 3 };
+            let sliders: Vec<u8> = if df == 0 || dr == 0 { vec![ROOK, QUEEN] } else { vec![BISHOP, QUEEN] };
+            let mut bks: Vec<u8> = (0..64u8).filter(|&s| (file_of(s) - f).abs().max((rank_of(s) - r).abs()) == 2).collect();
+            bks.extend([63u8, 0, 36].iter().filter(|&&s| (file_of(s) - f).abs().max((rank_of(s) - r).abs()) > 2));
+            for pd in 1..=reach {
+                let Some(ps) = sq_at(f + df * pd, r + dr * pd) else { break };
+                if rank_of(ps) == 0 || rank_of(ps) == 7 {
+                    continue;
+                }
+                for sd in 1..=reach {
+                    let Some(ss) = sq_at(f + df * (pd + sd), r + dr * (pd + sd)) else { break };
+                    for &sk in &sliders {
+                        for &bk in &bks {
+                            for xk in [QUEEN, ROOK, BISHOP, KNIGHT, PAWN] {
+                                for xs in 0..64u8 {
+                                    // the squares between king, pawn and slider stay empty
+                                    let on_line = (1..pd + sd).any(|d| sq_at(f + df * d, r + dr * d) == Some(xs));
+                                    if on_line || (xk == PAWN && (rank_of(xs) == 0 || rank_of(xs) == 7)) {
+                                        continue;
+                                    }
+                                    if let Some(p) = place(&[(wk, WKING), (ps, PAWN), (ss, sk | BLACK), (bk, BKING), (xs, xk | BLACK)], true, 0, None) {
+                                        let p = if mirror { p.mirror() } else { p };
+                                        if p.is_legal_position() {
+                                            out.push(p);
+                                        }
+                                    }
+                                }
+                            }
+                        }
+                    }
+                }
+            }
+        }),
+    }
+}
+
 /// Arbitrary placements for the attack-set property: every ordered pair of pieces of
 /// any kind/colour on any squares (kings not required, pawns on any rank), plus a
 /// third piece from a small menu on every remaining square when `three` is set.
